@@ -103,6 +103,15 @@ theorem single_byte_encOk (ok : UInt8 → Bool) (repl : UInt8) (r : Rules) (hesc
     (hrepl : repl = 0 ∨ ok repl = true) : EncOk (byteEnc ok repl) r :=
   byteEnc_ok ok repl r hesc hrepl
 
+/-- multi-byte validators (UTF-8): `EncOk` follows from `AsciiSync e` — the empty text is valid, valid texts can be
+joined, and a valid text can be cut at any of the ASCII bytes `< > & ; "` and the letters of the escape strings, each
+of which is valid on its own ("an accepted ASCII byte is a character on its own") — together with "the pre-filter
+yields valid text".  Both are statements about the encoding validator alone (property C14); they are **not** proved
+for the real UTF-8 validator here. -/
+theorem ascii_sync_encOk (e : Enc) (r : Rules) (hs : AsciiSync e)
+    (hp : ∀ x, e.valid x = false → e.valid (e.prefilter x) = true) : EncOk e r :=
+  asciiSync_encOk e r hs hp
+
 /-! `HtmlCaseOk` cannot be dropped for the *abstract* `Rules` type (whose `tagKind` is an arbitrary function):
 with `b` opening_and_closing but `B` stand_alone (impossible for a real HTML-mode `rules` object, whose map is
 keyed case-insensitively) the output `<b><B></b>` of `<b><x><B></x></b>` does not validate. -/
@@ -170,6 +179,8 @@ def exHtmlInput : Bytes :=
 example : validate (mkRules exHtml fun _ _ => false) exHtmlInput = false := by decide +kernel
 example : filter (mkRules exHtml fun _ _ => false) .remove exHtmlInput =
     [60, 98, 62, 60, 80, 62, 120, 60, 47, 66, 62, 121, 60, 104, 114, 62, 38, 35, 54, 53, 59] := by decide +kernel
+/-- `AsciiSync` is satisfiable: a single-byte validator accepting printable ASCII -/
+example : AsciiSync (byteEnc (fun c => 32 ≤ c && c ≤ 126) 0) := byteEnc_asciiSync _ _ (by decide)
 example : validate (mkRules exHtml fun _ _ => false) (filter (mkRules exHtml fun _ _ => false) .escape exHtmlInput) = true :=
   filter_validates_mkRules exHtml _ .escape exHtmlInput
 
